@@ -200,15 +200,18 @@ void replay_factory(const string_t& what)
         expect(static_cast<bool>(object), what + " <" + id + ">: get() returned null for a listed id");
         if (!object) { continue; }
         expect(object->type_id() == id, what + " <" + id + ">: reports the id <" + object->type_id() + ">");
-        perturb(*object);
+        if constexpr (std::is_base_of_v<configurable_t, tobject>) { perturb(*object); }
         const auto clone = object->clone();
         expect(clone && clone.get() != object.get(), what + " <" + id + ">: clone() is not a new object");
         if (!clone) { continue; }
         expect(clone->type_id() == object->type_id(), what + " <" + id + ">: the clone reports the id <" + clone->type_id() + ">");
-        expect(same(*object, *clone), what + " <" + id + "> (non-default parameters): the clone's parameters differ");
-        const auto before = object->parameters();
-        perturb(*clone);
-        expect(object->parameters() == before, what + " <" + id + ">: modifying the clone changed the original");
+        if constexpr (std::is_base_of_v<configurable_t, tobject>)
+        {
+            expect(same(*object, *clone), what + " <" + id + "> (non-default parameters): the clone's parameters differ");
+            const auto before = object->parameters();
+            perturb(*clone);
+            expect(object->parameters() == before, what + " <" + id + ">: modifying the clone changed the original");
+        }
     }
     expect(!tobject::all().get("no-such-id"), what + ": get() of an unknown id is not null");
 }
